@@ -34,7 +34,9 @@
 (*    server may refuse it or treat it as a plain mark-seen; its status is *)
 (*    not prescribed (only: it is answered);                               *)
 (*  - what a client method returns for a mark-seen / delete of a message   *)
-(*    that does not exist is not prescribed (only: nothing changes).       *)
+(*    that does not exist is not prescribed (only: nothing changes);       *)
+(*  - listing or purging a mailbox that holds nothing may be answered with *)
+(*    an empty list / OK, or as not found.                                 *)
 (***************************************************************************)
 EXTENDS Mailstore
 
@@ -71,7 +73,9 @@ Deliver(m, id, meta, size) ==
 (* a message that does not exist is answered 404                                  *)
 ReadReq(rq, st) ==
     /\ rq.route \in ReadRoutes
-    /\ st = IF rq.route = "list" \/ HasTarget(rq.mb, rq.id) THEN "ok" ELSE NF(rq.via)
+    /\ IF rq.route = "list"
+       THEN st = "ok" \/ (boxes[rq.mb] = <<>> /\ st = NF(rq.via))
+       ELSE st = IF HasTarget(rq.mb, rq.id) THEN "ok" ELSE NF(rq.via)
     /\ NoEffect
 
 (* outcome of a mutating by-id request whose message does not exist *)
@@ -102,7 +106,7 @@ DeleteReq(rq, st) ==
 
 PurgeReq(rq, st) ==
     /\ rq.route = "purge"
-    /\ st = "ok"
+    /\ st = "ok" \/ (boxes[rq.mb] = <<>> /\ st = NF(rq.via))
     /\ Purge(rq.mb)
 
 Req(rq, st) ==
@@ -147,15 +151,15 @@ Missing404 ==
     /\ (q.route \in (ByIdRoutes \cap ReadRoutes) /\ ~last'.had) => last'.st # "ok"
     /\ (q.route \in (ByIdRoutes \cap ReadRoutes) /\ last'.had) => last'.st = "ok"
 (* a refusal changes nothing *)
-RefusalNoEffect == last'.st \in {"notfound", "error", "err"} => UNCHANGED svars
+RefusalNoEffect == last'.st \in {"notfound", "error", "err"} => boxes' = boxes
 (* a request only ever touches the mailbox it names *)
 OthersUntouched == \A m \in Mailbox : m # last'.rq.mb => boxes'[m] = boxes[m]
 (* every client method has the effect its name says *)
 ClientEffectMatchesName ==
     LET q == last'.rq IN
     (q.via = "client") =>
-      /\ q.route = "list" => last'.st = "ok"
-      /\ q.route = "purge" => last'.st = "ok" /\ boxes'[q.mb] = <<>>
+      /\ q.route = "list" => (last'.st = "ok" \/ boxes[q.mb] = <<>>)
+      /\ q.route = "purge" => (last'.st = "ok" \/ boxes[q.mb] = <<>>) /\ boxes'[q.mb] = <<>>
       /\ (q.route = "delete" /\ q.id # "latest" /\ Live(q.mb, q.id)) =>
               last'.st = "ok" /\ boxes'[q.mb] = WithoutId(boxes[q.mb], q.id)
       /\ (q.route = "seen" /\ q.id # "latest" /\ Live(q.mb, q.id)) =>
